@@ -3,7 +3,7 @@
    the extracted inductive types; no Extract Constant / Extract Inductive of
    ours. *)
 From Coq Require Import ExtrOcamlBasic ExtrOcamlString.
-From TM Require Import Base Json RustOps Fancy Mapper Parser Convert ConvertSpec Serde LoaderCheck.
+From TM Require Import Base Json RustOps Fancy Mapper Parser Convert ConvertSpec Serde LoaderCheck JsonText.
 
 Definition x_load := load.
 Definition x_parse_layout := parse_layout.
@@ -23,6 +23,16 @@ Definition x_model_expand_agrees := model_expand_agrees.
 Definition x_expand_core := expand_core.
 Definition x_convert_core := convert_core.
 Definition x_keys_sorted := keys_sorted.
+(* the JSON text layer (JsonText.v) *)
+Definition x_print_pretty := print_pretty.
+Definition x_print_compact := print_compact.
+Definition x_parse_text := parse_text.
+Definition x_printable := printable.
+Definition x_depth := depth.
+Definition x_canon := canon.
+Definition x_save_text := save_text.
+Definition x_load_text := load_text.
 
 Extraction "model.ml" x_load x_parse_layout x_convert x_expand x_spec_load x_to_json x_outcome_eqb
-  x_layout_eqb x_json_eqb x_wf_basic x_check_roundtrip x_check_accepted_wf x_check_expand x_parse_row x_keys_sorted x_model_expand_agrees x_expand_core x_convert_core.
+  x_layout_eqb x_json_eqb x_wf_basic x_check_roundtrip x_check_accepted_wf x_check_expand x_parse_row x_keys_sorted x_model_expand_agrees x_expand_core x_convert_core
+  x_print_pretty x_print_compact x_parse_text x_printable x_depth x_canon x_save_text x_load_text.
